@@ -28,6 +28,9 @@ func Shrink(raw json.RawMessage) []json.RawMessage {
 			i := i
 			emit(func(c *Scenario) bool {
 				c.Archives = append(c.Archives[:i], c.Archives[i+1:]...)
+				if c.FailFirst && i <= 1 {
+					c.FailFirst = false
+				}
 				return true
 			})
 		}
@@ -99,6 +102,9 @@ func Shrink(raw json.RawMessage) []json.RawMessage {
 		ai := ai
 		if sc.Archives[ai].Dst != "" {
 			emit(func(c *Scenario) bool { c.Archives[ai].Dst = ""; return true })
+		}
+		if sc.Archives[ai].Wipe && !(sc.FailFirst && ai == 1) {
+			emit(func(c *Scenario) bool { c.Archives[ai].Wipe = false; return true })
 		}
 	}
 	if len(sc.Allow) > 0 {
